@@ -253,7 +253,7 @@ func (t *textReader) nextBeforeTypeAnnotations() (bool, error) {
 				if err := t.verifyUnquotedSymbol(val, "annotation"); err != nil {
 					return false, err
 				}
-			} else if tok == tokenSymbolOperator {
+			} else if tok == tokenSymbolOperator || tok == tokenDot {
 				return false, &SyntaxError{
 					"annotations that include a '" + val + "' must be enclosed in quotes", t.tok.Pos() - 1}
 			}
